@@ -311,6 +311,10 @@ func (g *opsGen) container(depth int) {
 		g.emit(simkit.Ev{K: simkit.KArrEnd})
 		return
 	}
+	if g.o.Hints && announced >= 0 && c.N(3) == 0 {
+		g.typedBasic(n, true) // homogeneous object with a truthful element type hint
+		return
+	}
 	start := len(g.ops)
 	g.emit(simkit.Ev{K: simkit.KObjStart, I: announced})
 	cnt := 0
@@ -326,7 +330,11 @@ func (g *opsGen) container(depth int) {
 }
 
 // typedBasicArray emits start(len, elemType) + homogeneous elements + end.
-func (g *opsGen) typedBasicArray(n int) {
+func (g *opsGen) typedBasicArray(n int) { g.typedBasic(n, false) }
+
+// typedBasic emits a homogeneous array or object whose start event announces
+// length and element type truthfully.
+func (g *opsGen) typedBasic(n int, object bool) {
 	c := g.c
 	type spec struct {
 		bt structform.BaseType
@@ -350,6 +358,15 @@ func (g *opsGen) typedBasicArray(n int) {
 		{structform.Float64Type, func() simkit.Ev { return simkit.Ev{K: simkit.KFloat64, U: GenF64(c, g.o.NonFinite).F} }},
 	}
 	s := specs[c.N(len(specs))]
+	if object {
+		g.emit(simkit.Ev{K: simkit.KObjStart, I: int64(n), T: uint8(s.bt)})
+		for i := 0; i < n; i++ {
+			g.key()
+			g.emit(s.ev())
+		}
+		g.emit(simkit.Ev{K: simkit.KObjEnd})
+		return
+	}
 	g.emit(simkit.Ev{K: simkit.KArrStart, I: int64(n), T: uint8(s.bt)})
 	for i := 0; i < n; i++ {
 		g.emit(s.ev())
